@@ -84,6 +84,13 @@ def equal_penalty_solutions(fail):
     return fail.get("kind") == "width_is_style_switch" and fail.get("equal_penalty_tie") is True
 
 
+def wider_more_lines_only_by_a_kept_blank_line(fail):
+    """F45: nothing overflows and the wider result has no more NON-blank lines than the narrower one: the extra line is a blank line of
+    the input that survives only where the child line it precedes is broken off (which happens at the wider limit only)"""
+    return fail.get("kind") == "wider_more_lines" and fail.get("narrow_overflows") is False and fail.get("wide_overflows") is False \
+        and isinstance(fail.get("nonblank_lines_wide"), int) and fail.get("nonblank_lines_wide") <= fail.get("nonblank_lines_narrow", -1)
+
+
 def line_without_solution(fail):
     """F42: the token's logical line got no solution from the search (none / iteration limit) and keeps its source layout"""
     return fail.get("kind") in ("plan_not_canonical", "leading_blank_line", "two_blank_lines") and fail.get("no_solution_line") is True
@@ -199,7 +206,7 @@ def witness_inputs(prop):
     return out
 
 
-DETECTORS = {f.__name__: f for f in [equal_penalty_solutions, line_without_solution, children_of_voided_parent, first_member_named_like_class_modifier, anonymous_routine_inside_raise, comment_between_control_keyword_and_begin, config_value_coerced, nested_anonymous_routines_unclosed_paren, lone_cr_after_line_comment, overflow_by_closers_after_line_comment, wider_more_lines_in_overflow_regime, wider_more_lines_cheaper_break_kind, mlstring_width_dependence,
+DETECTORS = {f.__name__: f for f in [wider_more_lines_only_by_a_kept_blank_line, equal_penalty_solutions, line_without_solution, children_of_voided_parent, first_member_named_like_class_modifier, anonymous_routine_inside_raise, comment_between_control_keyword_and_begin, config_value_coerced, nested_anonymous_routines_unclosed_paren, lone_cr_after_line_comment, overflow_by_closers_after_line_comment, wider_more_lines_in_overflow_regime, wider_more_lines_cheaper_break_kind, mlstring_width_dependence,
     cr_after_line_comment_in_region, literal_then_gap, mlstring_in_child_line_reflow,
     trailing_exotic_blank_in_line_comment, unterminated_literal_trailing_blank, continuation_saturates,
     nesting_depth, cursor_mid_char_changed_token, cursor_u16_truncation, mlstring_last_terminator_lone_cr,
